@@ -241,6 +241,11 @@ func (ex *Exec) fire(before bool, kind, name string, c *ssa.CallCommon, args []V
 				env.vars["result0"] = TV{res, rt(0)}
 			}
 		}
+		if !before {
+			for gn, gv := range ex.lastCalleeGhosts {
+				env.vars["callee_"+gn] = gv
+			}
+		}
 		for ai, a := range at.Actions {
 			switch a.Kind {
 			case "assert":
@@ -269,6 +274,27 @@ func (ex *Exec) fire(before bool, kind, name string, c *ssa.CallCommon, args []V
 				ex.applyLemma(a.C.E, env)
 			case "ghost":
 				v := sc(ex.eval(a.C.E, ex.st, env).V)
+				if i := strings.Index(a.Target, "("); i > 0 && strings.HasSuffix(a.Target, ")") {
+					// ghost field update: name(obj) = v
+					gname := strings.TrimSpace(a.Target[:i])
+					gt, isG := ex.specs.GhostFields[gname]
+					if !isG {
+						panic(unsupported("ghost field " + gname + " not declared"))
+					}
+					oe, err := ParseExpr(a.Target[i+1 : len(a.Target)-1])
+					if err != nil {
+						panic(unsupported(err.Error()))
+					}
+					obj := ex.scalarOf(ex.eval(oe, ex.st, env).V)
+					srt := ArrSort(SInt, specSort(gt, ex))
+					key := "ghost<" + gname + ">"
+					h := ex.heapGet(key, srt)
+					if ex.eventGuard.S != "" {
+						v = Ite(ex.eventGuard, v, Sel(h, obj))
+					}
+					ex.hStore1(key, srt, obj, v)
+					continue
+				}
 				old, ok := ex.st.ghost[a.Target]
 				if !ok {
 					panic(unsupported("ghost variable " + a.Target + " not declared"))
